@@ -362,8 +362,12 @@ package actor
 //@   ensures[C04.start.produce-first] loglen > entry(loglen) && log[entry(loglen)] == Produce(p)
 //@   ensures[C04.start.log-prefix] forall(k, 0 <= k && k < entry(loglen) ==> log[k] == entry(log)[k])
 
+// A panic while Initialized/Started is delivered to a restarted incarnation
+// happens before the replay: the messages saved by the earlier crash (among
+// them a pending poison pill) must still be there for the next attempt.
 //@ func (*process).Start$1()
 //@   inline
+//@   ghost at call tryRestart#1 before: assert[C05.start.crash-keeps-the-retry-buffer] p.mbuffer == entry(p.mbuffer)
 
 //@ pred isPill(m) := istype(m, poisonPill)
 //@ pred deliveryOf(p, m, snd) := Deliver(chainOf(boundmethod(p.context.receiver, "Receive"), p.Opts.Middleware), p.context, m, snd)
@@ -429,14 +433,14 @@ package actor
 
 //@ func (*process).Invoke$1()
 //@   inline
-//@   ghost at call tryRestart#1 before: assert[C05.crash.buffer] len(p.mbuffer) == nmsg - nproc && forall(j, 0 <= j && j < nmsg - nproc ==> p.mbuffer[j] == msgs[nproc + j])
+//@   ghost at call tryRestart#1 before: assert[C05.crash.buffer] len(p.mbuffer) == len(msgs) - nproc && forall(j, 0 <= j && j < len(msgs) - nproc ==> p.mbuffer[j] == msgs[nproc + j])
 //@   ghost at call tryRestart#1 before: assert[C05.crash.failed-not-redelivered] !inDrain ==> loglen == entry(loglen) + nproc + 1 && forall(k, 0 <= k && k < nproc ==> log[entry(loglen) + k] == deliveryOf(p, msgs[k].Msg, msgs[k].Sender))
 //@   ghost at call tryRestart#1 before: assert[C05.crash.failed-not-redelivered@while-draining-behind-pill] inDrain ==> nproc == drainIdx + 1
 //@   ghost at call tryRestart#1 before: assert[C07.pill.every-cancel@crash-while-draining-behind-it] inDrain ==> nproc <= pillIdx
 //@   ghost at call tryRestart#1 before: assert[C05.crash.stopped-to-failed] phase == 3 && isev(log[loglen - 1], Deliver) && log[loglen - 1].Deliver_ctx == p.context && istype(log[loglen - 1].Deliver_msg, Stopped)
 //@   loop 1
-//@     invariant 0 <= i && i <= nmsg - nproc && len(p.mbuffer) == nmsg - nproc && fresh(p.mbuffer) && p.mbuffer.off == 0
-//@     invariant forall(j, 0 <= j && j < i ==> p.mbuffer[j] == msgs[j + nproc])
+//@     invariant 0 <= idx && idx <= len(msgs) - nproc && len(p.mbuffer) == len(msgs) - nproc && fresh(p.mbuffer) && p.mbuffer.off == 0
+//@     invariant forall(j, 0 <= j && j < idx ==> p.mbuffer[j] == msgs[j + nproc])
 //@     modifies elements(p.mbuffer)
 
 
